@@ -164,6 +164,41 @@ def run_kl(ctx):
         ctx.traces += 1
 
 
+def run_sylvester(ctx):
+    """PSD square root (and the repeated root used by the Pade logarithm): forward value and hand-written backward on the rational family"""
+    import numqi, torch
+    from numqi._torch_op import PSDMatrixSqrtm, _PSDMatrixSqrtmRepeat
+    r = tlc.run('qsim/MC_Sylvester.tla', dump=True, timeout=3000, workers=8)
+    ctx.add_model('MC_Sylvester', r)
+    rm = lambda M: np.array([[e[0] / e[1] for e in row] for row in M], dtype=float)
+    for st in tlc.parse_dump(r):
+        cfg, obs = st['cfg'], st['obs']
+        A, root, X = rm(obs['A']), rm(obs['root']), rm(obs['X'])
+        G = np.array(cfg['G'], dtype=float)
+        data = dict(n=cfg['n'], spectrum=cfg['t'], repeat=cfg['r'], G=cfg['G'])
+        ctx.case(('sqrtm', cfg['n'], repr(cfg['t']), repr(cfg['c1']), repr(cfg['c2']), repr(cfg['G']), cfg['r']))
+        try:
+            for batched in (False, True):
+                At = torch.tensor(A if not batched else np.stack([A, A]), dtype=torch.float64, requires_grad=True)
+                out = PSDMatrixSqrtm.apply(At) if cfg['r'] == 1 else _PSDMatrixSqrtmRepeat.apply(At, 2)
+                got = out.detach().numpy()
+                if np.abs((got if not batched else got[1]) - root).max() > 1e-9:
+                    ctx.violation('C04:PSDMatrixSqrtm:forward', 'matrix root differs from the exact root (repeat=%d)' % cfg['r'], data)
+                    break
+                Gt = torch.tensor(G)
+                loss = (out * Gt.T).sum() if not batched else (out[1] * Gt.T).sum() + 0 * out[0].sum()
+                loss.backward()
+                gr = At.grad.numpy() if not batched else At.grad.numpy()[1]
+                ctx.evaluations += 1
+                if np.abs(gr - X).max() > 1e-8:
+                    kind = 'degenerate' if len(set(map(tuple, cfg['t']))) < len(cfg['t']) else 'generic'
+                    ctx.violation('C04:PSDMatrixSqrtm:backward:%s' % kind, 'backward of the matrix root (repeat=%d, %s spectrum%s) differs from the solution of the Sylvester equation' % (cfg['r'], kind, ', batched' if batched else ''), dict(data, expected=X.tolist(), got=gr.tolist()))
+                    break
+        except Exception as ex:
+            ctx.violation('C04:exception:PSDMatrixSqrtm', type(ex).__name__ + ': ' + str(ex)[:160], data)
+        ctx.traces += 1
+
+
 def run(ctx):
     quick = ctx.tier == 'quick'
     ctx.rule = ('TLC-simulated parametrised circuits (<=3 qubits, <=8 gates) with plain, controlled, shared (same gate object re-appended) and placeholder parameter cells at grid angles; '
@@ -171,7 +206,7 @@ def run(ctx):
                 'Gaussian-integer code words (forward and backward); distinct by program / instance')
     ctx.assumptions = ['TLC/SANY correct', 'tolerance 1e-9 (float64)', 'angles on the pi/2 grid (phases pi/4): index, ordering, accumulation and conjugation errors are angle independent']
     ctx.tolerances = {'float64': TOL}
-    ctx.not_covered = ['Pade matrix logarithm backward (transcendental - no exact model)', 'PSD matrix square root backward (rational Sylvester family not built yet)',
+    ctx.not_covered = ['Pade matrix logarithm backward (transcendental - no exact model; its building block, the repeated PSD square root, IS covered)', 'PSD square root at singular matrices (not differentiable there)', 'PSD matrix square root backward (rational Sylvester family not built yet)',
                        'losses of the variational models built on these operations', 'an error in a trigonometric derivative formula that vanishes on the angle grid']
     for cfg, num in [('3', 50 if quick else 500), ('2', 30 if quick else 300)]:
         r = tlc.run('qsim/Sim_Grad.tla', 'qsim/Sim_Grad_%s.cfg' % cfg, simulate=dict(num=num, file=True), depth=9, seed=ctx.seed + 5, workers=8, timeout=3000)
@@ -198,6 +233,7 @@ def run(ctx):
     if missing:
         raise core.MachineryError('vacuous gradient run: parameter kinds never generated: %s' % sorted(missing))
     run_kl(ctx)
+    run_sylvester(ctx)
 
 
 def replay(ctx, rec):
